@@ -62,3 +62,4 @@ def run(repo, res, tier):
     # that carries anything else surfaces as AttributeError, outside the documented types
     from .. import effects
     effects.rule_e5(repo, res)
+    decrules.rule_fmt(repo, res)
